@@ -75,7 +75,7 @@ class PureCheck:
             # family of inputs)
             step = self.warm_every if tier == "quick" else max(2, self.warm_every - 1)
             wr = common.rng(self.pid + ":warm")
-            inputs += [dict(inp, warm=wr.randrange(1, 4096)) for inp in inputs if wr.random() * step < 1]
+            inputs += [dict(inp, warm=wr.randrange(1, 8192)) for inp in inputs if wr.random() * step < 1]
         if getattr(self, "subst_every", 0):
             # the same inputs over other alphabets (enc.SUBSTS): a pseudo-randomly chosen 1/subst_every of them
             import enc
@@ -106,6 +106,18 @@ class PureCheck:
             import fmtlib
             fmtlib.CUT_SEED = zlib.crc32(json.dumps(inp, sort_keys=True, default=str).encode())
             fmtlib._CUTS[0] = 0
+        if enc.WARM & 4096:
+            # the very same call was made right before on OTHER values that have the same terminal strings as the operands
+            # (formatting spelled as escape characters inside a plain run, or the other way round): anything keyed on how
+            # a value renders must not mistake one for the other
+            twin = enc.twin_input(inp)
+            if twin != inp:
+                saved, enc.WARM = enc.WARM, 0
+                try:
+                    self.execute(twin)
+                except Exception:  # noqa - what the twin call does is not recorded
+                    pass
+                enc.WARM = saved
         try:
             return self.execute(inp)
         finally:
